@@ -72,8 +72,8 @@ fn run_c09(line: &str) -> String {
 }
 fn run_c08(line: &str) -> String {
     keep_fails(&run_blocking(line), "c08", |o| {
-        if o == "panic" {
-            "panic".into()
+        if o == "panic" || o == "hang" {
+            o.to_string()
         } else if o.contains("-budget") {
             // result and timing verdict; the counters belong to C09
             o.split(',').take(2).collect::<Vec<_>>().join(",")
@@ -473,7 +473,20 @@ fn run_seq(line: &str) -> Option<String> {
     })
 }
 
+/// Every case runs under a time limit (guard.rs): the longest legitimate case takes ≈ 1 s (the timing cases) — a
+/// live receiver gets a 3 s timeout but is served at once — so a call that has not come back after 8 s (2 s once a
+/// hang has been seen in this process) is wedged: the state lock is held for good (e.g. by a receiver that invoked a
+/// re-entrant watcher under it). Output `hang`, every property's hang oracle.
 fn run_blocking(line: &str) -> String {
+    let line = line.to_string();
+    match super::guard::run_limited(move || run_blocking_inner(&line), Duration::from_secs(8), Duration::from_secs(2)) {
+        super::guard::Verdict::Done(s) => s,
+        super::guard::Verdict::Panicked => "panic".into(),
+        super::guard::Verdict::Hung => "hang\tFAIL:c07-hang+c08-hang+c09-hang".into(),
+    }
+}
+
+fn run_blocking_inner(line: &str) -> String {
     if line.starts_with("(blseq") {
         return run_seq(line).unwrap_or_else(|| "bad-case".into());
     }
